@@ -3,6 +3,7 @@ package html
 import (
 	"fmt"
 	"io"
+	"regexp"
 	"strings"
 
 	"github.com/elliotchance/gedcom/v39"
@@ -108,8 +109,14 @@ func PageSources() string {
 	return "sources.html"
 }
 
+var unsafeFileNameRegexp = regexp.MustCompile("[^a-zA-Z0-9_-]+")
+
 func PageSource(source *gedcom.SourceNode) string {
-	return fmt.Sprintf("%s.html", source.Pointer())
+	// The pointer can be anything that does not contain a "@". It must not be
+	// able to name a file in another directory ("../x").
+	name := unsafeFileNameRegexp.ReplaceAllString(source.Pointer(), "-")
+
+	return fmt.Sprintf("%s.html", name)
 }
 
 func PageStatistics() string {
